@@ -1247,6 +1247,25 @@ def random_block(ctx, col, pp, torch):
             perm_check(ctx, pp, torch, dict(fn='perm', of='voxel_filter', pts=pts, perm=idx, voxel=voxel))
         if it % 2 == 0:
             add_voxr(col, pp, torch, pts, voxel, rng.randrange(10 ** 6))
+    # ---- voxel_filter, points exactly ON voxel boundaries for arbitrary integer voxel sizes: (p - min) is an exact multiple of
+    # the size, so the cell index is decided by how the quotient is computed (a reciprocal that rounds down moves the point
+    # into the lower cell).  Integer sizes on dyadic clouds keep the exact oracle sound in both dtypes: a quotient that is not
+    # an integer is at least 1 / (4 * 63) away from one.  Own random stream: the cases of the other blocks stay what they were.
+    import random as _random
+    rb = _random.Random(ctx.seed * 7919 + 18)
+    for it in range(16 * m):
+        vd, nf = rb.randint(1, 3), rb.choice([0, 0, 1])
+        N = rb.choice([4, 6, 9, 14, 20, 33, 60])
+        pts = gen_cloud(rb, N, vd, nf, 'L2', spread=rb.choice([64, 512]))
+        voxel = [float(rb.randint(3, 63)) for _ in range(vd)]
+        for ax in range(vd):
+            mn = min(r[ax] for r in pts)
+            for r in pts:
+                if rb.random() < 0.6:
+                    r[ax] = mn + rb.choice([1, 2, 3, 4, 5, 7, 8, 13, 16, 31, 32]) * voxel[ax]
+        add_vox(col, pp, torch, pts, voxel)
+        add_voxr(col, pp, torch, pts, voxel, rb.randrange(10 ** 6))
+        ctx.count('voxel:boundary-points-integer-sizes')
     # ---- knn
     for it in range(24 * m):
         o, D = rng.choice(os_), rng.randint(1, 6)
